@@ -3835,6 +3835,13 @@ class DecVarSub(VarSub):
             self.dvars.rand_adapt = np.zeros((self.size,
                                               sup_model.vars[-1].last),
                                              dtype=np.int8)
+        num_rand = self.dro_model.sup_model.vars[-1].last
+        if self.dvars.rand_adapt.shape[1] < num_rand:
+            # random variables declared after the first adapt() call
+            extra = num_rand - self.dvars.rand_adapt.shape[1]
+            self.dvars.rand_adapt = np.hstack((self.dvars.rand_adapt,
+                                               np.zeros((self.size, extra),
+                                                        dtype=np.int8)))
         self.rand_adapt = self.dvars.rand_adapt
 
         dec_indices = self.indices
